@@ -227,12 +227,14 @@ func (w *lifeWorld) envApply(action string) {
 	case "dropschedule":
 		w.update(name, func(jc *execution.JobConfig) { jc.Spec.Schedule = nil })
 	case "touch":
-		// A change that is not a schedule change (label): must not re-base anything.
+		// A change that is not a schedule change (a label and a spec field outside the schedule):
+		// must not re-base anything, and must not make a pending schedule change get lost.
 		w.update(name, func(jc *execution.JobConfig) {
 			if jc.Labels == nil {
 				jc.Labels = map[string]string{}
 			}
 			jc.Labels["touched"] = "yes"
+			jc.Spec.Concurrency.Policy = execution.ConcurrencyPolicyForbid
 		})
 	default:
 		panic("unknown event " + action)
